@@ -42,6 +42,19 @@ def calls_of(prog, path):
     return out
 
 
+def fn_items_passed(prog, path):
+    """function items handed to a call as a value (`.map(Self::from_f64)`): they are applied by the callee, so they count as conversions"""
+    out = []
+    for blk in prog.bodies[path]['blocks']:
+        t = blk['term']
+        if t['t'] == 'call':
+            for a in t['args']:
+                c = a.get('const') if isinstance(a, dict) else None
+                if isinstance(c, dict) and c.get('fn'):
+                    out.append(c['fn'])
+    return out
+
+
 def run(ctx):
     prog = ctx.prog('default')
     ctx.rules += ['R7 bit routing equality per regime cell (sign x regime run x exponent bits, fraction bits symbolic)',
@@ -109,7 +122,7 @@ def run(ctx):
         fp, _ = prog.find_impl_method('core::str::FromStr', pty.tykey, 'from_str')
         ok = False
         if fp:
-            cs = [c for c, a in calls_of(prog, fp)]
+            cs = [c for c, a in calls_of(prog, fp)] + fn_items_passed(prog, fp)
             parse = [c for c in cs if c.endswith('for f64>::from_str')]
             conv = [c for c in cs if c.endswith('::from') and 'From<f64> for %s' % pty.tykey in c or c == prog.inherent(pty.tykey, 'from_f64')]
             ok = len(parse) == 1 and len(conv) == 1
